@@ -43,6 +43,7 @@ def zoo():
         ("rs", np.random.RandomState(3)), ("gen", np.random.default_rng(4)),
         ("gen-nested", {"rng": [np.random.Generator(np.random.MT19937(5)), 1]}),
         ("bytes", [b"ab", bytearray(b"cd")]), ("masked", np.ma.MaskedArray([1, 2], [0, 1])), ("dtype", np.dtype("float32")),
+        ("dtypes-odd", [np.dtype(object), np.dtype("<U3"), np.dtype([("a", "f4", (2,)), ("b", "i4")]), np.dtype("datetime64[ns]"), np.dtype(">c16")]),
         ("sparse", sp.csr_matrix(np.eye(3))), ("tfidf", TfidfTransformer().fit(sp.csr_matrix(np.eye(3)))),
         ("method", StandardScaler().fit(X).transform), ("types", [int, np.float64, len]),
         # functions that are dispatcher objects in current numpy, plain functions when old archives were written
